@@ -34,7 +34,7 @@ ASSUMES = ["a kill leaves exactly a prefix of the issued FS mutations, the last 
            "rename is atomic (POSIX)"]
 OUTSIDE = ["power loss without fsync", "non-POSIX rename", "large payloads (multi-chunk pickles beyond those recorded)"]
 
-SRC_V1 = "def f(a, b=2):\n    return ('v1', a, b)\n"
+SRC_V1 = "def f(a, b=2):\n    # caf\u00e9 \u2713\n    return ('v1', a, b)\n"      # non-ASCII: multi-byte characters can be torn
 SRC_BIG = "def f(a, b=2):\n    return ('v1', a, b, list(range(3000)), 'x' * 70000)\n"
 SRC_V2 = "def f(a, b=2):\n    x = 1\n    return ('v2', a, b)\n"
 WORKLOADS = ["cold", "warm", "source_change", "invalidate", "shelve", "compressed", "reduce_size", "clear"]
